@@ -356,6 +356,12 @@ def build_scenarios(prop, tier, rnd):
                         {"op": "put", "k": 1, "c": "B"}, {"op": "del", "k": 2}]
                 add(pre + tail, {"kt": ["string", "u32"][j % 2], "n": n, "sync": True},
                     {"mode": "crash", "nested": False, "cont": True, "from": max(1, len(pre) - 2)}, chunk=j)
+        if prop in ("C09", "C06"):
+            # a content of exactly 4 MiB - a whole multiple of every plausible internal window (64 KiB, 1 MiB, 4 MiB) - streamed in
+            # pieces smaller than the write buffer, with a power-loss image at every boundary: what was acknowledged is whole
+            # (the chunking class of operation i is (chunk + i) mod 7: 2 -> 4096-byte pieces, 5 -> 5000-byte pieces, 4 -> 8192 + rest)
+            for ch in ((2,) if q else (2, 5, 4)):
+                add([{"op": "put", "k": 1, "c": "X"}], {"kt": "string", "n": 10000, "sync": True}, {"mode": "power", "nested": False, "cont": False}, chunk=ch)
         if mode == "crash":
             # a second session that works NEXT TO the leftovers of a killed one (no clean-up first): staging files of the dead
             # session (up to 1.2 MB streamed) must not leak into what the new session commits or abandons
@@ -461,11 +467,16 @@ def build_scenarios(prop, tier, rnd):
     elif prop == "C10":
         walks = random_walks(6 if q else 60, 5 if q else 9, rnd, keys=(1, 2, 3), contents=("A", "B", "E"))
         fixed = [[{"op": "put", "k": 1, "c": "A"}, {"op": "put", "k": 2, "c": "B"}, {"op": "delr", "lo": ["U", 0], "hi": ["U", 0]}],
-                 [{"op": "put", "k": 1, "c": "A"}, {"op": "ckpt"}, {"op": "put", "k": 2, "c": "B"}, {"op": "del", "k": 1}]]
+                 [{"op": "put", "k": 1, "c": "A"}, {"op": "ckpt"}, {"op": "put", "k": 2, "c": "B"}, {"op": "del", "k": 1}],
+                 # byte-identical consecutive records (the same key re-put with unchanged content, twice and three times in a row):
+                 # each of them is verified on its own
+                 [{"op": "put", "k": 1, "c": "A"}, {"op": "put", "k": 1, "c": "A"}, {"op": "put", "k": 2, "c": "B"}, {"op": "put", "k": 2, "c": "B"},
+                  {"op": "put", "k": 2, "c": "B"}]]
         for i, ops in enumerate(fixed + walks):
             # no reopen/ckpt at the end: leave an uncheckpointed tail
             ops = [o for o in ops if o["op"] != "reopen"] if i % 2 else ops
-            cfg = {"kt": ["string", "bytes", "i64", "string_big"][i % 4], "n": [3, 10000, 2][i % 3], "sync": True, "strict": i % 2 == 1}
+            # (the third fixed history needs its identical records in ONE segment: the large segment size)
+            cfg = {"kt": ["string", "bytes", "i64", "string_big"][i % 4], "n": 10000 if i == 2 else [3, 10000, 2][i % 3], "sync": True, "strict": i % 2 == 1}
             # every offset and every checksum/payload byte, also in the quick tier (a single unlucky byte matters)
             add(ops, cfg, {"mode": "damage", "stride": 1, "flipvals": ([255] if q else [1, 128, 255])}, chunk=i)
         # crash images in which the un-checkpointed records span two segment files
